@@ -66,7 +66,8 @@ fn main() {
             Some(cr) => {
                 if cr.status == 0 && cr.stderr.is_empty() {
                     format!("ok {}", q(&cr.stdout))
-                } else if cr.status == 1 && cr.stdout.is_empty() && cr.stderr == "syntax error" {
+                } else if cr.status == 1 && cr.stdout.is_empty() && !cr.stderr.is_empty() {
+                    // a diagnostic ("syntax error" today)
                     "err".to_string()
                 } else {
                     format!("?cr status={} out={} err={}", cr.status, q(&cr.stdout), q(&cr.stderr))
